@@ -1285,7 +1285,7 @@ HOSTILE_SCHEMA = {
     "close": "H", "sinfo": "H", "login": "HNB", "logout": "H", "initpin": "HB", "setpin": "HBB", "create": "HT", "copy": "HHT", "destroy": "HH", "probe": "HH", "objsize": "HH",
     "setattr": "HHT", "getattr": "HHG", "findinit": "HT", "find": "HN", "findfinal": "H", "genkey": "HMT", "genpair": "HMT", "encinit": "HMH", "decinit": "HMH", "siginit": "HMH", "verinit": "HMH",
     "diginit": "HM", "enc": "HBO", "dec": "HBO", "sign": "HBO", "digest": "HBO", "encupd": "HBO", "decupd": "HBO", "encfinal": "HO", "decfinal": "HO", "sigfinal": "HO", "digfinal": "HO",
-    "sigupd": "HB", "verupd": "HB", "digupd": "HB", "digkey": "HH", "verify": "HBB", "verfinal": "HB", "wrap": "HMHHO", "unwrap": "HMHBT", "derive": "HMHT", "kcv": "HH", "random": "HN", "seed": "HB",
+    "misc": "HNHB", "sigupd": "HB", "verupd": "HB", "digupd": "HB", "digkey": "HH", "verify": "HBB", "verfinal": "HB", "wrap": "HMHHO", "unwrap": "HMHBT", "derive": "HMHT", "kcv": "HH", "random": "HN", "seed": "HB",
 }
 HOSTILE_TYPES = ["0", "1", "2", "3", "11", "100", "102", "103", "104", "105", "106", "107", "108", "10a", "10c", "110", "111", "120", "121", "122", "130", "132", "161", "162", "163", "164", "165", "166", "170",
                  "180", "210", "40000211", "40000212", "40000600", "80005349", "ffffffff", "90", "86", "8b", "202", "171"]
@@ -1336,13 +1336,20 @@ def hostile_history(seed, tables, nmut=25):
                 else: w[j] = _hostile_bytes(rng, tok)
             elif k == "T":
                 c = rng.random()
-                if c < 0.15: w.insert(j, tok); kinds.insert(j - 1, "T")
+                if c < 0.06:        # a long template: the same entry many times over (fixed-size attribute arrays inside the library)
+                    n = rng.choice([10, 28, 29, 33, 64, 200]); w[j:j] = [tok] * n; kinds[j - 1:j - 1] = ["T"] * n
+                elif c < 0.15: w.insert(j, tok); kinds.insert(j - 1, "T")
                 elif c < 0.25: del w[j]; del kinds[j - 1]
                 else: w[j] = _hostile_entry(rng, tok)
             elif k == "G":
                 ty, _, cap = tok.partition(":")
                 w[j] = rng.choice([f"{ty}:{rng.choice(['n', '0', '1', '7', '8', '9', '4096'])}", f"{rng.choice(HOSTILE_TYPES)}:{cap}", tok + " " + tok])
         lines[i] = " ".join(w)
+    # the entry points no generator reaches (appended, so that the @k references above stay valid): on every session-like reference seen, with hostile handles too
+    sess = [l.split()[1] for l in lines if l.split()[0] in ("login", "findinit", "create") and len(l.split()) > 1][:3]
+    tail = [f"misc {h_} {rng.choice(['0', '1', '7', '4294967295'])} {rng.choice(HOSTILE_HANDLES)} {_hostile_bytes(rng, 'aabbccdd')}" for h_ in sess + [rng.choice(HOSTILE_HANDLES)]]
+    if lines and lines[-1].split()[0] == "fini": lines[-1:-1] = tail
+    else: lines += tail
     return "\n".join(lines) + "\n"
 
 
@@ -1465,11 +1472,26 @@ def mutated_files_history(seed, rounds=5):
     for _ in range(rounds):
         for _ in range(rng.choice([1, 1, 2, 3, 6])):
             c = rng.random()
-            if c < 0.08: target = "T0/token.object"; tok_ok = False
+            if c < 0.12: target = "T0/token.object"; tok_ok = False
             elif c < 0.12: target = "T0/generation"
             elif c < 0.15: target = f"T0/{rng.choice(['zz', 'aa', '0000'])}{rng.randrange(100)}.object"
             else: target = f"T0/O{rng.randrange(0, nobj + 3)}"
             m = rng.random()
+            if "generation" not in target and not (target.endswith(".object") and "/O" not in target and "token" not in target) and rng.random() < 0.35:
+                # structured damage: the file stays a well-formed attribute sequence, ONE attribute changes (length, kind, type, duplicated, dropped)
+                sel = rng.choice(["t80005349", "t8000534a", "t8000534b", "t8000534c", "t8000534d"]) if "token" in target else rng.choice([f"i{rng.randrange(0, 14)}", "t0", "t1", "t2", "t3", "t11", "t100", "t120", "t180", "t40000211", "t40000600", "t161"])
+                x = rng.random()
+                if x < 0.3: h.op(f"fsmut grow {target} {sel} {rng.choice([1, 16, 17, 33, 300, 1000, 5000])}")
+                elif x < 0.45: h.op(f"fsmut shrink {target} {sel} {rng.choice([1, 2, 8, 15, 16, 31, 32, 1000])}")
+                elif x < 0.6: h.op(f"fsmut retype {target} {sel} {rng.choice(HOSTILE_TYPES)}")
+                elif x < 0.8:
+                    kind, pay = rng.choice([(1, "01"), (1, "00"), (2, "00000000000000ff"), (2, "ffffffffffffffff"), (3, "0000000000000000"), (3, "0000000000000003616263"), (3, "00000000000003e8" + "41" * 1000),
+                                            (5, "0000000000000000"), (5, "0000000000000002" + "0000000000001081" + "0000000000000000"), (4, "0000000000000000"),
+                                            (4, "0000000000000011" + "0000000000000162" + "0000000000000001" + "01")])
+                    h.op(f"fsmut rekind {target} {sel} {kind} {pay}")
+                elif x < 0.9: h.op(f"fsmut dup {target} {sel}")
+                else: h.op(f"fsmut drop {target} {sel}")
+                continue
             if target.endswith(".object") and "/O" not in target and "token" not in target:
                 h.op(f"fsmut write {target} {rng.choice(['.', '00', rb(7), rb(8), rb(16), rb(24), rb(100), U(1)[::-1] * 3, '00' * 8 + '00' * 7 + '00', '0000000000000001' + '0000000000000000' + '0000000000000002' + '0000000000000005'])}")
             elif m < 0.35: h.op(f"fsmut poke {target} {8 * rng.randrange(0, 60)} {rng.choice(POKE_WORDS)}")
@@ -1709,6 +1731,7 @@ def thread_scenarios():
         "find": (True, ["findinit {S0}", "find {S0} 100", "findfinal {S0}"]),
         "open": (True, [f"open t:{lab} 6", "sinfo @{A0}"]),
         "copy": (True, [f"copy {{S0}} {{X}} 3={hx('newA')} 1=01", "getattr {S0} @{A0} 3:64 11:64"]),
+        "read-private": (True, ["getattr {S0} {Z} 3:64 11:64"]),          # decrypts with the token's one shared cipher object
     }
     B = {   # name -> (uses S1 from the prologue?, [calls of thread 1 …])
         "open-create-read": (False, [f"open t:{lab} 6", f"create @{{B0}} 0={U(0)} 1=00 2=00 3={hx('newB')} 11=b2b2", "getattr @{B0} @{B1} 3:64 11:64", "findinit @{B0}", "find @{B0} 100", "findfinal @{B0}"]),
@@ -1720,6 +1743,7 @@ def thread_scenarios():
         "close": (True, ["close {S1}"]),
         "open-close": (False, [f"open t:{lab} 4", "sinfo @{B0}", "close @{B0}"]),
         "session-object": (True, [f"create {{S1}} 0={U(0)} 1=00 2=01 3={hx('newB')} 11=b2b2", "destroy {S1} @{B0}"]),
+        "read-private": (True, ["getattr {S1} {Z} 3:64 11:64"]),
     }
     for an, (needS1, acalls) in A.items():
         for bn, (usesS1, bcalls) in B.items():
@@ -1737,7 +1761,7 @@ def thread_scenarios():
             if needS1 and usesS1: S1 = "@%d" % op("M", f"open t:{lab} 6")
             elif needS1: op("M", f"open t:{lab} 4")          # another session exists, so that A's session is not the last one
             a0 = len(lines) + (2 if an == "login" else 1)
-            for c in acalls: op("T0", c.replace("{S0}", S0).replace("{X}", X).replace("{A0}", str(a0)))
+            for c in acalls: op("T0", c.replace("{S0}", S0).replace("{X}", X).replace("{Z}", Z).replace("{A0}", str(a0)))
             b0 = len(lines) + 1
             for c in bcalls: op("T1", c.replace("{S1}", S1 or "").replace("{X}", X).replace("{Z}", Z).replace("{B0}", str(b0)).replace("{B1}", str(b0 + 1)))
             k = op("M", f"open t:{lab} 4"); op("M", f"login @{k} 1 {user}")
@@ -1747,3 +1771,104 @@ def thread_scenarios():
             for w in sorted({1, len(bcalls)}):
                 out.append((f"{an}/{bn}/w{w}", "\n".join(lines) + "\n", w))
     return out
+
+
+def overlap_scenarios():
+    """C15 at file-operation granularity: [(name, prefix ops, A call of process 0, [B calls of process 1], suffix ops)].  Both processes have the token open, a session each,
+    are logged in, and hold their own handles for the token objects X (public data), Z (private data) and K (AES key).  The coordinator arms `pauseat k` before A."""
+    lab, so, user = hx("tokA"), hx("so0pin0"), hx("user0pin")
+    U = ul
+    out = []
+    A = {
+        "setattr": "setattr {S0} {X0} 10=0a0b0c",
+        "setattr-private": "setattr {S0} {Z0} 10=0a0b0c",
+        "setattr-key": "setattr {S0} {K0} 104=00",
+        "destroy": "destroy {S0} {X0}",
+        "create": f"create {{S0}} 0={U(0)} 1=01 2=00 3={hx('newA')} 11=a1a1 10=00",
+        "create-private": f"create {{S0}} 0={U(0)} 1=01 2=01 3={hx('newA')} 11=a1a1 10=00",
+        "copy": f"copy {{S0}} {{X0}} 3={hx('newA')} 1=01",
+        "setattr-big": "setattr {S0} {G0} 10=0a0b0c",          # a 12 kB object: its rewrite reaches the disk in several pieces
+        "destroy-big": "destroy {S0} {G0}",
+    }
+    B = {
+        "read": ["getattr {S1} {X1} 3:64 10:64 11:64"],
+        "read-big": ["getattr {S1} {G1} 3:64 10:64 11:13000"],
+        "change-big": ["setattr {S1} {G1} 12=0d0e", "getattr {S1} {G1} 3:64 10:64 12:64 11:13000"],
+        "read-private": ["getattr {S1} {Z1} 3:64 10:64 11:64"],
+        "read-key": ["getattr {S1} {K1} 3:64 104:1 105:1"],
+        "find": ["findinit {S1}", "find {S1} 100", "findfinal {S1}"],
+        "change": ["setattr {S1} {X1} 12=0d0e"],
+        "destroy": ["destroy {S1} {X1}"],
+        "create": [f"create {{S1}} 0={U(0)} 1=01 2=00 3={hx('newB')} 11=b2b2 10=00"],
+        "find-new": [f"findinit {{S1}} 3={hx('newA')}", "find {S1} 5", "findfinal {S1}", "getattr {S1} @{F}.0 3:64 11:64"],
+    }
+    for an, a in A.items():
+        for bn, bs in B.items():
+            if ("big" in an) != ("big" in bn) and not (("big" in an) and bn in ("find", "create")): continue
+            cnt = [0, 0]; lines = []
+            def op(i, text):
+                cnt[i] += 1; lines.append(f"P{i} {text}"); return cnt[i]
+            op(0, "init"); op(0, "slots"); op(0, f"inittoken free {so} {lab}"); op(0, "slots")
+            k = op(0, f"open t:{lab} 6"); op(0, f"login @{k} 0 {so}"); op(0, f"initpin @{k} {user}"); op(0, f"close @{k}")
+            S0 = "@%d" % op(0, f"open t:{lab} 6"); op(0, f"login {S0} 1 {user}")
+            X0 = "@%d" % op(0, f"create {S0} 0={U(0)} 1=01 2=00 3={hx('objX')} 11=1111 10=00 12=00")
+            Z0 = "@%d" % op(0, f"create {S0} 0={U(0)} 1=01 2=01 3={hx('objZ')} 11=3333 10=00")
+            K0 = "@%d" % op(0, f"create {S0} 0={U(4)} 100={U(0x1f)} 1=01 2=01 3={hx('keyK')} 11={'5a' * 16} 104=01 105=01 162=01 103=00")
+            G0 = "@%d" % op(0, f"create {S0} 0={U(0)} 1=01 2=00 3={hx('objG')} 11={'c7' * 12000} 10=00 12=00")
+            op(1, "init"); op(1, "slots")
+            S1 = "@%d" % op(1, f"open t:{lab} 6"); op(1, f"login {S1} 1 {user}")
+            refs = {}
+            for nm, l in (("X1", "objX"), ("Z1", "objZ"), ("K1", "keyK"), ("G1", "objG")):
+                op(1, f"findinit {S1} 3={hx(l)}"); f = op(1, f"find {S1} 5"); op(1, f"findfinal {S1}"); refs[nm] = f"@{f}.0"
+            prefix = list(lines); lines.clear()
+            fmt = lambda t, F=0: t.replace("{S0}", S0).replace("{X0}", X0).replace("{Z0}", Z0).replace("{K0}", K0).replace("{S1}", S1).replace("{X1}", refs["X1"]).replace("{Z1}", refs["Z1"]).replace("{K1}", refs["K1"]).replace("{G0}", G0).replace("{G1}", refs["G1"]).replace("{F}", str(F))
+            a_line = "P0 " + fmt(a); cnt[0] += 1
+            b_lines = []
+            f_idx = cnt[1] + 2        # the `find` of "find-new" is the second call of B
+            for t in bs:
+                cnt[1] += 1; b_lines.append("P1 " + fmt(t, f_idx))
+            # afterwards: both read X and everything
+            op(0, f"getattr {S0} {X0} 3:64 10:64 11:64 12:64"); op(1, f"getattr {S1} {refs['X1']} 3:64 10:64 11:64 12:64")
+            op(0, f"findinit {S0}"); op(0, f"find {S0} 100"); op(0, f"findfinal {S0}")
+            op(1, f"findinit {S1}"); op(1, f"find {S1} 100"); op(1, f"findfinal {S1}")
+            op(0, "fini"); op(1, "fini")
+            out.append((f"{an}/{bn}", "\n".join(prefix) + "\n", a_line, b_lines, "\n".join(lines) + "\n"))
+    return out
+
+
+def long_template_history(seed):
+    """C17: every call that takes a template, with templates of 28..200 entries (the library copies templates into fixed-size arrays of 32 attributes in several places)."""
+    rng = random.Random(seed)
+    h = OpsGen(rng); h.prologue(1); t = h.toks[0]
+    k = h.open(t, True); h.login(k, t, 'user')
+    U = ul; R = RSA1024
+    rb = lambda n: bytes(rng.randrange(256) for _ in range(n)).hex() or "."
+    aes = h.op(f"create @{k} 0={U(4)} 100={U(0x1f)} 3={hx(h.new_label())} 11={rb(16)} 104=01 105=01 106=01 107=01 10c=01 162=01 103=00"); h.minted += 1
+    gen_ = h.op(f"create @{k} 0={U(4)} 100={U(0x10)} 3={hx(h.new_label())} 11={rb(32)} 10c=01 162=01 103=00"); h.minted += 1
+    d = rng.randrange(1, 2**255)
+    ecp = h.op(f"create @{k} 0={U(3)} 100={U(3)} 3={hx(h.new_label())} 180={P256} 11={d.to_bytes(32, 'big').hex()} 10c=01 2=01 103=00 162=01"); h.minted += 1
+    x = rng.randrange(2, 2**160)
+    dhp = h.op(f"create @{k} 0={U(3)} 100={U(2)} 3={hx(h.new_label())} 130={OAKLEY2.to_bytes(128, 'big').hex()} 132=02 11={x.to_bytes(20, 'big').hex()} 10c=01 2=01 103=00 162=01"); h.minted += 1
+    w = h.op(f"wrap @{k} 2109 @{aes} @{gen_} 700")
+    Q = p256_mul(7, P256_G); pt = "04" + Q[0].to_bytes(32, "big").hex() + Q[1].to_bytes(32, "big").hex()
+    for n in (27, 28, 29, 30, 31, 32, 33, 64, 200):
+        filler = " ".join(rng.choice([f"3={rb(1)}", f"102={rb(1)}", "104=01", "105=01"]) for _ in range(n))
+        lab = lambda: hx(h.new_label())
+        h.op(f"create @{k} 0={U(0)} 11={rb(4)} {' '.join('3=' + rb(1) for _ in range(n))}")
+        h.op(f"create @{k} 0={U(4)} 100={U(0x1f)} 11={rb(16)} {filler}")
+        for mech, extra in (("1080", f"161={U(16)}"), ("350", f"161={U(16)}"), ("130", ""), ("131", ""), ("120", "")):
+            h.op(f"genkey @{k} {mech} {extra} {filler}")
+        h.op(f"genpair @{k} 0 121={U(1024)} 122=010001 {filler} / {filler}")
+        h.op(f"genpair @{k} 1040 180={P256} {filler} / {filler}")
+        h.op(f"genpair @{k} 1055 180={ED25519_OID} {filler} / {filler}")
+        h.op(f"genpair @{k} 20 130={OAKLEY2.to_bytes(128, 'big').hex()} 132=02 {filler} / {filler}")
+        h.op(f"unwrap @{k} 2109 @{aes} blob:@{w} 0={U(4)} 100={U(0x10)} {filler}")
+        h.op(f"derive @{k} 1104:str({rb(16)}) @{aes} 0={U(4)} 100={U(0x10)} 161={U(16)} {filler}")
+        h.op(f"derive @{k} 1050:ecdh(1,{pt}) @{ecp} 0={U(4)} 100={U(0x10)} 161={U(16)} {filler}")
+        h.op(f"derive @{k} 21:{pow(2, 77, OAKLEY2).to_bytes(128, 'big').hex()} @{dhp} 0={U(4)} 100={U(0x10)} 161={U(16)} {filler}")
+        h.op(f"derive @{k} 360:obj(@{gen_}) @{gen_} {filler}")
+        h.op(f"copy @{k} @{gen_} {filler}")
+        h.op(f"setattr @{k} @{gen_} {filler}")
+        h.op(f"findinit @{k} {filler}"); h.op(f"find @{k} 10"); h.op(f"findfinal @{k}")
+    h.op("fini")
+    return h.text()
